@@ -280,6 +280,18 @@ def evaluate(run, props):
 
 
 def run_one(scn, sched, props, st, findings, label):
+    """One admission run in an isolated child; folds its statistics and findings into st /
+    findings and returns (pilot info, sample, summary)."""
+    from harness import isolate
+    r = isolate.call(exec_one, scn, sched, props, label)
+    s1.merge_stats(st, r['st'])
+    findings.extend(r['findings'])
+    return r['info'], r['sample'], r['summary']
+
+
+def exec_one(scn, sched, props, label):
+    st = s1.new_stats()
+    findings = []
     parserec.reset()
     run = session.run_session(scn, sched)
     an = evaluate(run, props)
@@ -320,8 +332,11 @@ def run_one(scn, sched, props, st, findings, label):
                                             if v.accept_index is not None),
                                            key=lambda v: v.accept_index)],
               'schedule': sched.get('label'), 'outcome': run.outcome}
+    res = {'st': st, 'findings': findings, 'info': s1.pilot_info(run), 'sample': sample,
+           'summary': {'outcome': run.outcome, 'digest': run.digest,
+                       'decisions': run.sim.decisions}}
     session.cleanup(run)
-    return run, an, sample
+    return res
 
 
 def run_task(task):
@@ -334,12 +349,11 @@ def run_task(task):
         scn = gen_s2(rng)
         sched = session.default_sched()
         sched['label'] = 'fifo'
-        run, an, sample = run_one(scn, sched, props, st, findings, 's2:fifo')
+        info, sample, _ = run_one(scn, sched, props, st, findings, 's2:fifo')
         samples.append(sample)
-        info = s1.pilot_info(run)
         for j in range(task.get('m', 3) - 1):
             sched = s1.gen_sched(rng, info)
-            run, an, sample = run_one(scn, sched, props, st, findings, 's2:' + sched['label'])
+            run_one(scn, sched, props, st, findings, 's2:' + sched['label'])
     else:
         # enumeration of all arrival orders of a small request multiset
         n = rng.choice((4, 5, 5, 6))
@@ -351,11 +365,11 @@ def run_task(task):
             c['connect_order'] = list(order)
             sched = session.default_sched()
             sched['label'] = 'fifo'
-            run, an, sample = run_one(c, sched, props, st, findings, 's2e:fifo')
+            info1, sample, _ = run_one(c, sched, props, st, findings, 's2e:fifo')
             norders += 1
             if norders == 1:
                 samples.append(sample)
-                info = s1.pilot_info(run)
+                info = info1
             if norders % 4 == 0:
                 sched = s1.gen_sched(rng, info)
                 run_one(c, sched, props, st, findings, 's2e:' + sched['label'])
@@ -370,6 +384,5 @@ def run_task(task):
 def run_plan(plan, prop):
     st = s1.new_stats()
     findings = []
-    run, an, sample = run_one(plan['scenario'], plan['sched'], (prop,), st, findings, 'replay')
-    summary = {'outcome': run.outcome, 'digest': run.digest, 'decisions': run.sim.decisions}
+    _, _, summary = run_one(plan['scenario'], plan['sched'], (prop,), st, findings, 'replay')
     return findings, summary
